@@ -929,6 +929,12 @@ func (tkn *Tokenizer) scanString(delim uint16, typ int) (int, []byte) {
 				continue
 			}
 			if decodedChar := sqltypes.SQLDecodeMap[byte(tkn.lastChar)]; decodedChar == sqltypes.DontEscape {
+				// MySQL keeps the backslash of the sequences \% and \_ (they stand for a literal % or _ in LIKE
+				// patterns and for the two characters themselves elsewhere); dropping it would turn the literal
+				// into a wildcard when the statement is printed again
+				if (tkn.lastChar == '%' || tkn.lastChar == '_') && tkn.IsMySQL() {
+					buffer.WriteByte('\\')
+				}
 				ch = tkn.lastChar
 			} else {
 				ch = uint16(decodedChar)
